@@ -302,17 +302,17 @@ fn judge_elems<T: Copy + PartialOrd + Debug + Send + Sync>(ty: &'static str, dat
             l.count("views of unknown length judged");
         }
         // fixed-capacity variants: CAP = n, n+1, 64, 1024 where instantiated
-        for cap in [n, n + 1, 64, 1024] {
+        for cap in [n, n + 1, 64, 1024, 2048] {
             if cap < n {
                 continue;
             }
-            let got = with_cap!(cap, c, &permuted, q, T, [4, 5, 6, 7, 8, 9, 16, 17, 64, 1024]);
+            let got = with_cap!(cap, c, &permuted, q, T, [4, 5, 6, 7, 8, 9, 16, 17, 64, 1024, 2048]);
             if let Some(g) = got {
                 check("ci_max_size", g, l, Some(p));
                 l.count("fixed-capacity calls judged");
             }
             let lazy = crate::lazy::Lazy(permuted.clone());
-            if let Some(g) = with_cap!(cap, c, &lazy, q, T, [4, 5, 6, 7, 8, 9, 16, 17, 64, 1024]) {
+            if let Some(g) = with_cap!(cap, c, &lazy, q, T, [4, 5, 6, 7, 8, 9, 16, 17, 64, 1024, 2048]) {
                 check("ci_max_size(view of unknown length)", g, l, Some(p));
             }
         }
@@ -389,7 +389,7 @@ fn elem_case(seed: u64, i: u64, quick: bool, l: &mut Local) {
         }
     } else {
         // random multisets with ties up to 1024, random permutations
-        let n = *r.pick(&[8usize, 9, 15, 16, 17, 40, 64, 100, 333, 1000, 1024]);
+        let n = *r.pick(&[8usize, 9, 15, 16, 17, 40, 64, 100, 333, 1000, 1024, 1025, 1500, 2048, 2049, 3000]);
         let ms = multiset(&mut r, n, (n / 3).max(2));
         let np = if quick { 6 } else { 50 };
         let perms: Vec<Vec<usize>> = (0..np)
@@ -469,7 +469,7 @@ pub fn run(run: &Arc<Run>) {
     let levels = level_grid(seed, run.cfg.by(2, 8));
     run.set_rule(format!(
         "(i) rank sweep, exhaustive in n: 0 <= n <= {} plus 8 populations in [2^32-1, 2^40], q-grid per n = all half-integers j/(2n) (where round flips; strided for large n in the quick tier), j/n ± 1e-12 (where floor flips), fixed and seeded quantiles, invalid q (<=0, >=1, NaN, ±inf), {} levels x 3 kinds, through ci_indices and Stats::new(n).ci; \
-         oracle = own Wilson roots + ambiguity sets for round/floor within 1e-9 of a boundary. (ii) element sweep: all permutations of multisets of size 4..6 (7 thorough) over a 4-symbol alphabet and random permutations of random multisets with ties up to 1024, for i32, u8, f64 (±0), char, &str, String; entry points ci, ci_sorted_unchecked, ci_max_size::<CAP> (CAP in n, n+1, 64, 1024); ci / ci_max_size also through user-defined views whose iterators announce 0 resp. half of their length. \
+         oracle = own Wilson roots + ambiguity sets for round/floor within 1e-9 of a boundary. (ii) element sweep: all permutations of multisets of size 4..6 (7 thorough) over a 4-symbol alphabet and random permutations of random multisets with ties up to 3000, for i32, u8, f64 (±0), char, &str, String; entry points ci, ci_sorted_unchecked, ci_max_size::<CAP> (CAP in n, n+1, 64, 1024, 2048); ci / ci_max_size also through user-defined views whose iterators announce 0 resp. half of their length. \
          non-trivial = admissible (n,q,confidence) resp. each data set; distinct = their fingerprints.",
         nmax,
         levels.len()
